@@ -130,6 +130,55 @@ func OffsetOf(file []byte, line, col int) (off int, ok bool) {
 	return pos, true
 }
 
+// OffsetsOfLenient is OffsetOf for lines that are not valid UTF-8 between the
+// line start and the column: it returns the offsets obtained by the two usual
+// conventions (every invalid byte is one character; bytes 0x80-0xBF are never
+// the start of a character). Used only to classify a disagreement.
+func OffsetsOfLenient(file []byte, line, col int) []int {
+	if line < 1 || col < 1 {
+		return nil
+	}
+	pos := 0
+	for l := 1; l < line; l++ {
+		i := bytes.IndexByte(file[pos:], '\n')
+		if i < 0 {
+			return nil
+		}
+		pos += i + 1
+	}
+	var out []int
+	// convention 1: RuneCount (an invalid byte is one character)
+	p := pos
+	ok := true
+	for c := 1; c < col; c++ {
+		if p >= len(file) || file[p] == '\n' {
+			ok = false
+			break
+		}
+		_, n := utf8.DecodeRune(file[p:])
+		p += n
+	}
+	if ok {
+		out = append(out, p)
+	}
+	// convention 2: count the bytes that can start a character
+	p = pos
+	c := 1
+	for p < len(file) && file[p] != '\n' {
+		if b := file[p]; b < 0x80 || b > 0xBF {
+			if c == col {
+				break
+			}
+			c++
+		}
+		p++
+	}
+	if c == col && (len(out) == 0 || out[0] != p) {
+		out = append(out, p)
+	}
+	return out
+}
+
 // Relation says where the reported line:column lies relative to the reported
 // byte range, for a position whose line:column and Start disagree:
 //
